@@ -21,8 +21,9 @@ def run(tier, seed, work):
     mc = [("MC_Locking.tla", "MC_Locking_C12_quick.cfg" if quick else "MC_Locking_C12_thorough.cfg")]
     big = [("c12_big_%d" % j, ["rewardbig", "-n", 4 if quick else 30, "-depth", 40, "-seed", seed * 1000 + 500 + j]) for j in range(4)]
     groups = lc.groups("C12", seed + 1, quick, modes=("", "burst")) + [("Trace_RewardBig.tla", "Trace_RewardBig_C12.cfg", big)]
+    proofs = [verif.prove("Proofs_LockingArith", work)]   # TLAPS: the emission step conserves value and moves min(scheduled, remaining); a share lies within its pool - for every amount
     return verif.run_stateful_check("C12", tier, seed, work, mc_list=mc, groups=groups, key_fn=bigkey,
-                                    level="model_checking",
+                                    level="model_checking", extra_cov=dict(unbounded_lemmas=proofs),
                                     assumptions=lc.COMMON_ASSUME + ["small-amount regime: pool x validators far below 1e18, where the code's 18-digit "
                                                                     "rounding cannot distribute more than the pool; the 1e18-magnitude regime is the "
                                                                     "large-scale check (see DESIGN.md)"],
